@@ -107,8 +107,26 @@ def oddities(rng, n):
     out = []
     H = 'project p "P" 2025-01-06 +%s { timezone "Etc/UTC" %s }\nresource r "R" {}\nresource s "S" {}\nresource t "T" {}\n'
     for _ in range(n):
-        k = rng.randint(0, 3)
+        k = rng.randint(0, 5)
         dur = rng.choice(["2w", "4w", "10d"])
+        if k == 4:
+            # attributes written for one scenario of a tree - the root, an inner one, a leaf - in every form the grammar has
+            tree = rng.choice(['scenario plan "Plan" { scenario delayed "D" { scenario worse "W" } scenario fast "F" }',
+                               'scenario plan "Plan" { scenario delayed "D" }'])
+            sc = rng.choice(["plan", "delayed", "worse", "fast"] if "worse" in tree else ["plan", "delayed"])
+            attr = rng.choice(["effort 3d", "effort 5h", "duration 3d", "length 2d", "start 2025-01-08", "end 2025-01-15", "duration 4h"])
+            first = rng.choice(["effort 2d ", "", "duration 1d "])
+            body = 'task a "A" { %s%s:%s allocate r }\ntask b "B" { effort 4h allocate s depends !a }\n' % (first, sc, attr)
+            out.append((H % (dur, tree) + body, None, "scenattr:%s:%s" % (sc, attr.split()[0])))
+            continue
+        if k == 5:
+            # a task that must not be interrupted, on a resource that cannot be resolved or is a group, around the clock
+            hours = rng.choice(["workinghours mon - sun 0:00 - 24:00", "workinghours mon - sun 00:00 - 24:00", "", "workinghours mon - fri 6:00 - 22:00"])
+            who = rng.choice(["ghost", "r", "r, s", "ghost, r"])
+            eff = rng.choice(["30h", "200h", "2h", "9h", "2000h"])
+            body = 'task a "A" { effort %s allocate %s flags contiguous }\ntask b "B" { effort 3h allocate t depends !a }\n' % (eff, who)
+            out.append((H % (rng.choice(["1w", "2w", "3d"]), hours) + body, None, "contiguous:%s" % who.replace(", ", "+")))
+            continue
         if k == 0:
             kind = rng.randint(0, 6)
             eff = rng.choice([2, 6, 11])
@@ -249,7 +267,7 @@ def run(ctx):
         violations.append({"no_input": True, "replay": common.write_replay(ctx, {"property": "C11", "kind": "proof obligation no longer checks; no failing input found", "failing_obligations": failing})})
     cov = {"obligations": nob, "discharged": ndis, "checker_cmd": "tools/coqbuild.sh (coqc 8.16.1 full .vo build)", "trusted_base": common.TRUSTED, "files": files,
            "traces_validated_against_impl": len(aps) + len(texts) + len(odd), "input_distribution": dict(stats),
-           "rule": "grammatical infeasible projects (cycles, self-dependencies, pinned dates before/after the horizon, never-working resources, huge and one-minute efforts, huge gaps, ALAP deadlines outside the horizon, work pinned too close to the end of the horizon, alternatives on the infeasible task, resource groups in allocations, 'flags contiguous', resources with efficiency 0, horizons ending inside working hours, efforts of 99999999h) in isolated workers with a time limit; corrupted variants (token deletion, duplication, swap, replacement) of valid texts: the outcome must be a result or a parse error; grammatical oddities (macros calling each other in cycles or themselves one to three times a pass, nested macros that end, timing resolutions from 0 to a day, gaps of thousands of years in every dependency spelling and direction, several allocate statements with and without alternatives): a result or a diagnostic within 30 s. The fault-injection part is testing and is labelled so: Lark, the transformer and Python exceptions outside slot indexing are not modelled.",
+           "rule": "grammatical infeasible projects (cycles, self-dependencies, pinned dates before/after the horizon, never-working resources, huge and one-minute efforts, huge gaps, ALAP deadlines outside the horizon, work pinned too close to the end of the horizon, alternatives on the infeasible task, resource groups in allocations, 'flags contiguous', resources with efficiency 0, horizons ending inside working hours, efforts of 99999999h) in isolated workers with a time limit; corrupted variants (token deletion, duplication, swap, replacement) of valid texts: the outcome must be a result or a parse error; grammatical oddities (macros calling each other in cycles or themselves one to three times a pass, nested macros that end, timing resolutions from 0 to a day, gaps of thousands of years in every dependency spelling and direction, several allocate statements with and without alternatives, attributes written for the root, an inner or a leaf scenario incl. duration and length, uninterruptible tasks on unresolvable resources with working time around the clock): a result or a diagnostic within 30 s. The fault-injection part is testing and is labelled so: Lark, the transformer and Python exceptions outside slot indexing are not modelled.",
            "samples": [{"family": aps[0]["_family"], "project": projects.render(aps[0])[:1000]}, {"malformed": texts[0][:400]}]}
     common.finish(ctx, "proof", cov, violations,
                   ["partial: the theorems cover termination of the model (structural fuel) and that no slot outside the horizon is touched; everything in front of the scheduler (Lark, transformer) is exercised by fault injection only"])
